@@ -37,7 +37,7 @@ var canIntervene = map[string]int{"connlimit": 429, "ratelimit": 429, "cbreaker"
 
 type behaviour struct {
 	status int // 0 implicit
-	hdr    int // 0 none, 1 multi-valued, 2 explicit Content-Length
+	hdr    int // 0 none, 1 multi-valued, 2 explicit Content-Length, 3 header map built by hand (suppressed Date/Content-Type, non-canonical key)
 	body   int // 0 none, 1 small, 2 three writes
 	mode   int // 0 plain, 1 flush between writes, 2 hijack, 3 informational 103 before the final status
 }
@@ -49,7 +49,7 @@ func (b behaviour) String() string {
 func behaviours() []behaviour {
 	var out []behaviour
 	for _, st := range []int{0, 200, 404, 500} {
-		for h := 0; h < 3; h++ {
+		for h := 0; h < 4; h++ {
 			for b := 0; b < 3; b++ {
 				out = append(out, behaviour{st, h, b, 0})
 			}
@@ -124,6 +124,12 @@ func (w *world) inner() http.Handler {
 			rw.Header().Set("X-Single", "s")
 		case 2:
 			rw.Header().Set("Content-Length", fmt.Sprint(len(strings.Join(parts, ""))))
+		case 3:
+			// what net/http documents: a nil entry suppresses an automatic header; direct map
+			// assignment keeps the key exactly as written
+			rw.Header()["Date"] = nil
+			rw.Header()["Content-Type"] = nil
+			rw.Header()["x-lower-case"] = []string{"kept-as-written"}
 		}
 		if b.mode == 3 {
 			rw.Header().Set("Link", "</style.css>; rel=preload")
@@ -237,8 +243,9 @@ type result struct {
 	header http.Header
 	body   []byte
 	nresp  int
-	info   []int // informational (1xx) responses that preceded the final one
-	early  bool  // the flushed first chunk was seen before the rest was written
+	info   []int  // informational (1xx) responses that preceded the final one
+	names  string // header names of the final response exactly as they were on the wire
+	early  bool   // the flushed first chunk was seen before the rest was written
 	err    string
 	raw    []byte
 }
@@ -292,7 +299,40 @@ func (w *world) exchange(body []byte, wantEarly string) result {
 	if len(rs) > 0 {
 		res.status, res.header, res.body = rs[0].StatusCode, rs[0].Header, bodies[0]
 	}
+	res.names = wireHeaderNames(res.raw)
 	return res
+}
+
+// wireHeaderNames: the header names of the LAST response head in raw, as written on the wire
+// (framing headers excluded), so that key case and suppressed automatic headers are compared too.
+func wireHeaderNames(raw []byte) string {
+	heads := bytes.Split(raw, []byte("HTTP/1.1 "))
+	var best []string
+	for _, h := range heads[1:] {
+		end := bytes.Index(h, []byte("\r\n\r\n"))
+		if end < 0 {
+			continue
+		}
+		lines := strings.Split(string(h[:end]), "\r\n")
+		if len(lines) > 0 && strings.HasPrefix(lines[0], "1") {
+			continue // informational
+		}
+		var names []string
+		for _, l := range lines[1:] {
+			if i := strings.Index(l, ":"); i > 0 {
+				switch n := l[:i]; n {
+				case "Content-Length", "Transfer-Encoding", "Connection":
+				default:
+					names = append(names, n)
+				}
+			}
+		}
+		sort.Strings(names)
+		if best == nil {
+			best = names
+		}
+	}
+	return strings.Join(best, ",")
 }
 
 func sig(h http.Header, explicitCL bool) string {
@@ -393,6 +433,8 @@ func runStack(w *world, ks []string, base map[behaviour]result, rep *lib.Report)
 			rep.Violate("C20:body-altered:"+cls, fmt.Sprintf("[%s] %v: body %.60q through the stack, %.60q from the bare handler", name, b, res.body, want.body), what)
 		case sig(res.header, b.hdr == 2) != sig(want.header, b.hdr == 2):
 			rep.Violate("C20:headers-altered:"+cls, fmt.Sprintf("[%s] %v: headers %s through the stack, %s from the bare handler", name, b, sig(res.header, b.hdr == 2), sig(want.header, b.hdr == 2)), what)
+		case b.mode != 2 && res.names != want.names:
+			rep.Violate("C20:header-names-altered:"+cls, fmt.Sprintf("[%s] %v: header names on the wire %q through the stack, %q from the bare handler", name, b, res.names, want.names), what)
 		case atomic.LoadInt32(&w.p.hijacker) != 1:
 			rep.Violate("C20:hijacker-unavailable:inner="+inner, fmt.Sprintf("[%s]: the handler's ResponseWriter does not offer http.Hijacker", name), what)
 		case !hasBuffer && atomic.LoadInt32(&w.p.flusher) != 1:
